@@ -161,13 +161,21 @@ class WatermarkPoolSink(PoolSink):
     Args:
       sink - An open sink.
     """
-    sink_stack, msg, stream, headers = self._waiters.popleft()
-    self._varz.queue_size(len(self._waiters))
-    # The stack has a QueuingChannelSink on the top now, pop it off
-    # and push the real stack back on.
-    orig_sink, ctx = sink_stack.Pop()
-    sink_stack.Push(orig_sink, sink)
-    sink.AsyncProcessRequest(sink_stack, msg, stream, headers)
+    while self._waiters:
+      sink_stack, msg, stream, headers = self._waiters.popleft()
+      self._varz.queue_size(len(self._waiters))
+      if not sink_stack.Any():
+        # This waiter was already answered while it was queued (it timed out),
+        # skip it and keep the sink for the next one.
+        continue
+      # The stack has a QueuingChannelSink on the top now, pop it off
+      # and push the real stack back on.
+      orig_sink, ctx = sink_stack.Pop()
+      sink_stack.Push(orig_sink, sink)
+      sink.AsyncProcessRequest(sink_stack, msg, stream, headers)
+      return
+    # Every waiter had already been answered, return the sink to the pool.
+    self._Release(sink)
 
   def Open(self):
     ar = AsyncResult()
